@@ -7,6 +7,9 @@ sub-calls memoized beforehand (all 2^n subsets for n <= 6 in the thorough tier),
 single call and for a batch containing it, and identical on every backend.
 """
 import itertools
+import os
+import shutil
+import tempfile
 import json
 import sys
 
@@ -39,6 +42,112 @@ def record_for(prog, backend, pre, root, via_batch, use_model, root_dir, also=()
         return real, mout, tr
     finally:
         w.close()
+
+
+MUT_SRC = """from twosigma.memento import memento_function
+
+
+@memento_function(cluster="cp")
+def total(xs, tag=None):
+    return [sum(xs), len(xs), tag]
+
+
+@memento_function(cluster="cp")
+def collect(n):
+    xs = []
+    opts = {"k": 0}
+    out = []
+    for i in range(n):
+        xs.append(i)                 # the same list object is passed again and again and changed in between
+        opts["k"] = i
+        out.append(total(xs, tag=opts))
+    return out
+"""
+
+
+def mutable_args_scenario(chk):
+    """the body passes one mutable object to several sub-calls and changes it in between: each recorded invocation carries the
+    argument values of *its* call. Checked against the argument hashes of independent copies, cold and with sub-calls
+    memoized beforehand, on both backends."""
+    import importlib
+    import linecache
+    import types
+    import twosigma.memento as m
+    from twosigma.memento import Environment, ConfigurationRepository, FunctionCluster
+    from twosigma.memento.storage_memory import MemoryStorageBackend
+    from twosigma.memento.storage_filesystem import FilesystemStorageBackend
+    prev = m.Environment.get()
+    fails = []
+    try:
+        for backend in ("fs", "memory"):
+            for pre in ([], [1], [0, 2]):
+                d = tempfile.mkdtemp(prefix="c10m_", dir=chk.tmpdir())
+                st = MemoryStorageBackend() if backend == "memory" else FilesystemStorageBackend(path=os.path.join(d, "s"))
+                m.Environment.set(Environment(name="cp", base_dir=d, repos=[ConfigurationRepository(name="r", clusters={"cp": FunctionCluster(name="cp", storage=st)})]))
+                _mut_n[0] += 1
+                modname = "c10mut_%d_%d" % (os.getpid(), _mut_n[0])
+                fname = "<%s>" % modname
+                linecache.cache[fname] = (len(MUT_SRC), None, MUT_SRC.splitlines(True), fname)
+                mod = types.ModuleType(modname)
+                sys.modules[modname] = mod
+                exec(compile(MUT_SRC, fname, "exec"), mod.__dict__)
+                try:
+                    want = [mod.total.fn_reference().with_args(list(range(i + 1)), tag={"k": i}).arg_hash for i in range(3)]
+                    for i in pre:
+                        mod.total(list(range(i + 1)), tag={"k": i})
+                    mod.collect(3)
+                    got = [inv.arg_hash for inv in mod.collect.memento(3).invocation_metadata.invocations]
+                    # a reader that decodes the stored record from scratch must see the same
+                    if backend == "fs":
+                        st2 = FilesystemStorageBackend(path=os.path.join(d, "s"))
+                        m.Environment.set(Environment(name="cp", base_dir=d, repos=[ConfigurationRepository(name="r", clusters={"cp": FunctionCluster(name="cp", storage=st2)})]))
+                        got2 = [inv.arg_hash for inv in mod.collect.memento(3).invocation_metadata.invocations]
+                    else:
+                        got2 = got
+                    chk.case(["mutable-arguments", backend, pre], nontrivial=True, sample=dict(kind="mutable arguments", backend=backend, pre=pre))
+                    chk.count("mode:mutable-arguments")
+                    if got != want or got2 != want:
+                        fails.append(dict(clause="provenance-exact", scenario="mutable-arguments", backend=backend, pre=pre,
+                                          recorded=[h[:12] for h in got], reread=[h[:12] for h in got2], expected=[h[:12] for h in want]))
+                finally:
+                    sys.modules.pop(modname, None)
+                    shutil.rmtree(d, ignore_errors=True)
+    finally:
+        m.Environment.set(prev)
+    return fails
+
+
+_mut_n = [0]
+
+
+def lost_result_scenario(chk):
+    """the memoized result of a call becomes unreadable (its data files vanish) and the call is made again: the recomputation
+    must leave the record of the call as it was (no invocation or resource listed twice), with a memory cache too."""
+    Z = [0, 0]
+    noexc = {"raise": [0, 0, 0, 0]}
+    prog = dict(fns={1: dict(explicit=False, stmts=[["res", 1]], const=1, **noexc),
+                     2: dict(explicit=False, stmts=[["call", 1, 0, "i", False, False, False, False, Z], ["res", 2], ["call", 1, 1, "i", False, False, False, False, Z]],
+                             const=2, **noexc)})
+    fails = []
+    for backend in ("fs", "fs+cache"):
+        w = progs.RunWorld(prog, backend=backend, root=chk.tmpdir(), use_model=False, budget_mb=4)
+        try:
+            w.op(["call", 2, 1, "i", False, False])
+            before, _ = w.op(["memento", 2, 1, 0])
+            cdir = os.path.join(w.dir, "store", "c", ".versions")
+            for u in os.listdir(cdir):
+                shutil.rmtree(os.path.join(cdir, u))
+            w.reopen()                                            # a new session: nothing is resident in the memory cache
+            for _ in range(2):
+                w.op(["call", 2, 1, "i", False, False])          # unreadable result: recomputed
+            after, _ = w.op(["memento", 2, 1, 0])
+            chk.case(["lost-result", backend], nontrivial=True, sample=dict(kind="result data lost, call repeated", backend=backend, record=after))
+            chk.count("mode:lost-result")
+            if after != before:
+                fails.append(dict(clause="provenance-store-independent", scenario="lost-result", backend=backend, before=before, after=after))
+        finally:
+            w.close()
+    return fails
 
 
 def concurrent_subcall(chk):
@@ -97,6 +206,17 @@ def concurrent_subcall(chk):
 
 
 def main(chk, replay=None):
+    if replay is not None and replay.get("extra_scenario"):
+        class _C2:
+            def tmpdir(self):
+                return None
+            def case(self, *a, **k):
+                pass
+            def count(self, *a, **k):
+                pass
+        fl = mutable_args_scenario(_C2()) if replay["extra_scenario"] == "mutable-arguments" else lost_result_scenario(_C2())
+        print(json.dumps(dict(still_fails=bool(fl), observed=fl[:2]), default=str))
+        return 1 if fl else 0
     if replay is not None and replay.get("concurrent"):
         class _C:
             def __init__(self):
@@ -155,6 +275,9 @@ def main(chk, replay=None):
                                                  ["batch", 3, [0, 1], "i", False, False, False, False, Z]], const=3, **{"raise": [0, 0, 0, 0]})}),
     ]
     concurrent_subcall(chk)
+    for fl in (mutable_args_scenario(chk) + lost_result_scenario(chk))[:3]:
+        chk.violation({"what": "provenance (%s): %s" % (fl["scenario"], fl["clause"]), "class": {"clause": fl["clause"], "scenario": fl["scenario"]},
+                       "extra_scenario": fl["scenario"], "observed": fl})
     for pi in range(nprog + 2 * len(corpus)):
         directed = pi < 2 * len(corpus)
         if directed:
